@@ -23,7 +23,7 @@ CAUSES = ['server-eof', 'transport-error', 'keepalive-timeout', 'explicit']
 
 
 def plan(tier, seed):
-    return [('reconnect', 500 if tier == 'quick' else 20000)]
+    return [('reconnect', 4000 if tier == 'quick' else 40000)]
 
 
 async def _run(rng, desc):
